@@ -6,7 +6,11 @@ chooses) over the scripted counting environments of `harness/envs.py` — per-en
 lengths, so automatic resets interleave; termination-only / truncation-only / mixed endings; agents
 leaving early; vector / image / dict / tuple observations with many dtypes; discrete and continuous
 actions; copy and no-copy modes; seeds; action dicts whose keys are inserted in another order than
-possible_agents (reversed, or re-shuffled at every step, with pairwise different per-agent actions) — is
+possible_agents (reversed, or re-shuffled at every step, with pairwise different per-agent actions);
+per-environment step delays that script the completion order of the workers (lower indices slower,
+higher indices slower, random: the implementation-side counterpart of C12_schedule_independent);
+observations handed out as non-C-contiguous views (transposed, axis-moved, Fortran, strided, negative
+strides) — is
 driven by op sequences (reset(seed) | step(actions[, key order])).  Actions, the reference, the model
 input and the environments' action logs are all keyed by agent id.
 
@@ -89,6 +93,15 @@ def gen_case(rng, tier: str) -> dict:
             for a in rng.sample(range(n_agents), rng.randint(1, n_agents - 1)):
                 leave[a] = rng.randint(1, 3)
         env_cfgs.append({"lens": lens, "kinds": kinds, "leave": leave, "rev_dicts": rng.random() < 0.2})
+    # memory layout of the observations the environments hand out (same values, non-contiguous views)
+    if rng.random() < 0.55:
+        lay = rng.choice(scripted.LAYOUTS[1:])
+        for e in env_cfgs:
+            e["layout"] = lay if rng.random() < 0.7 else rng.choice(scripted.LAYOUTS)
+    # completion order of the workers: lower indices slower / higher indices slower / random
+    share = 0.5 if tier == "quick" else 0.35
+    mode = rng.choice(["reversed", "reversed", "forward", "random"]) if (n_envs > 1 and rng.random() < share) else "none"
+    script_delays(rng, env_cfgs, mode, rng.choice([3, 5, 8, 12]))
     ops = []
     n_seq = rng.randint(1, 2) if tier == "quick" else rng.randint(2, 4)
     # the action dict is keyed by agent id: in a good share of the cases its keys are inserted in another
@@ -100,7 +113,7 @@ def gen_case(rng, tier: str) -> dict:
             ops.append(gen_step(rng, act, n_envs, key_order))
     return {"n_envs": n_envs, "agents": agents, "obs": obs, "act": act, "envs": env_cfgs,
             "copy": rng.random() < 0.6, "container": rng.choice(["array", "array", "list"]),
-            "context": None, "ops": ops, "case_seed": rng.randrange(1 << 30)}
+            "context": None, "ops": ops, "case_seed": rng.randrange(1 << 30), "completion": mode}
 
 
 def gen_actions(rng, act, n_envs):
@@ -131,10 +144,21 @@ def gen_step(rng, act, n_envs, key_order="agents"):
     return ["step", acts, order]
 
 
-def env_cfgs(case) -> list[dict]:
+def env_cfgs(case, delays=True) -> list[dict]:
+    """`delays=False`: the sequential reference does not need to sleep"""
     return [{"env_id": i, "agents": case["agents"], "lens": e["lens"], "kinds": e["kinds"], "leave": e["leave"],
-             "obs": case["obs"], "act": case["act"], "rev_dicts": e.get("rev_dicts", False)}
+             "obs": case["obs"], "act": case["act"], "rev_dicts": e.get("rev_dicts", False),
+             "layout": e.get("layout", "c"), "delay_ms": e.get("delay_ms", 0) if delays else 0}
             for i, e in enumerate(case["envs"])]
+
+
+def script_delays(rng, env_list, mode, d):
+    """per-env step delays that script the order in which the workers complete a step"""
+    n = len(env_list)
+    for i, e in enumerate(env_list):
+        e["delay_ms"] = {"none": 0, "reversed": (n - 1 - i) * d, "forward": i * d}.get(mode, None)
+        if e["delay_ms"] is None:
+            e["delay_ms"] = rng.choice([0, d, 2 * d, 3 * d])
 
 
 def action_dict(case, acts, order=None):
@@ -209,7 +233,7 @@ class RefVec:
 
     def __init__(self, case):
         self.case = case
-        self.envs = [scripted.ScriptedParallelEnv(c) for c in env_cfgs(case)]
+        self.envs = [scripted.ScriptedParallelEnv(c) for c in env_cfgs(case, delays=False)]
 
     def _batch_obs(self, per_env):
         out = []
@@ -744,6 +768,11 @@ def case_tags(case) -> list[str]:
     if any(op[0] == "reset" and op[1] is not None for op in case["ops"]):
         t.append("seeded")
     t.append(f"start-method-{case.get('context') or 'default'}")
+    t.append(f"completion-order-{case.get('completion', 'none')}")
+    lays = {e.get("layout", "c") for e in case["envs"]}
+    t += sorted(f"layout-{x}" for x in lays)
+    if lays - {"c"}:
+        t.append("non-contiguous-observations")
     n = len(case["agents"])
     if any(op[0] == "step" and len(op) > 2 and list(op[2]) != list(range(n)) for op in case["ops"]):
         t.append("action-dict-keys-in-another-order")
@@ -757,7 +786,8 @@ def run(chk: Check) -> None:
                 "(1-5 envs, 1-3 agents, vector/image/dict/tuple observations over ten dtypes, discrete and "
                 "continuous actions, per-env episode lengths 1-5 cycling per episode, term/trunc/mixed/both "
                 "endings, agents leaving early, copy and no-copy, seeds, action-dict key order = / reversed / "
-                "shuffled per step) driven by reset/step op sequences; "
+                "shuffled per step, scripted worker completion orders through per-env step delays, observations "
+                "as non-contiguous views) driven by reset/step op sequences; "
                 "wrapper suite: PettingZooAutoResetParallelWrapper over the same environments in-process; "
                 "distinct = distinct (configuration, op list); non-trivial = at least one automatic reset happened")
     chk.assumptions = [
@@ -801,7 +831,9 @@ def run(chk: Check) -> None:
         # a few cases under the other start methods (workers re-import agilerl and envs)
         for ctx in ("spawn", "forkserver"):
             c = gen_case(rng, "quick")
-            c["n_envs"], c["envs"], c["context"] = 2, (c["envs"] * 2)[:2], ctx
+            c["n_envs"], c["envs"], c["context"] = 2, [dict(e) for e in (c["envs"] * 2)[:2]], ctx
+            script_delays(rng, c["envs"], "reversed", 10)
+            c["completion"] = "reversed"
             c["ops"] = [["reset", 5]] + [["step", gen_actions(rng, c["act"], 2)] for _ in range(8)]
             vcases.insert(len(vcases) - n_gen, (c, f"context-{ctx}"))
     vdiff, vviol, done = 0, 0, 0
